@@ -343,14 +343,22 @@ impl PmTree {
         let start = indices[0];
         let end = indices.last().unwrap() + 1;
 
-        let new_leaves = (start..end).map(|_| PmTreeHasher::default_leaf());
+        // Positions of the span that are not removed keep their current leaf
+        let mut new_leaves = Vec::new();
+        for i in start..end {
+            if indices.contains(&i) {
+                new_leaves.push(PmTreeHasher::default_leaf());
+            } else {
+                new_leaves.push(self.tree.get(i)?);
+            }
+        }
 
         self.tree
             .set_range(start, new_leaves)
             .map_err(|e| Report::msg(e.to_string()))?;
 
-        for i in start..end {
-            self.cached_leaves_indices[i] = 0
+        for i in indices {
+            self.cached_leaves_indices[*i] = 0
         }
         Ok(())
     }
